@@ -22,6 +22,17 @@ E: the REAL execute_distributed_partition runs under a controlled scheduler
    DistExec action with the logged arguments and lead to the logged state),
    and for the fully explored instances the set of global states the real
    executor reached must EQUAL the set TLC reaches.
+R: for a sample of the programs (and floating-point variants of some) the
+   parts are run by REAL generated code: pytato's generate_code_for_partition
+   with the harness's C target (ptverif/cexec.py, gcc), each BoundCProgram
+   behind a (queue, **inputs) -> (evt, dict) adapter, executed by the real
+   execute_distributed_partition under the controlled scheduler in several
+   schedules, in isolated worker processes (a kernel that kills or hangs its
+   process is an execution_crashed violation).  Outputs must equal the
+   unpartitioned global NumPy evaluation (integers exactly, floats within
+   ptverif.runprog.compare's tolerance), every kernel result must equal the
+   reference evaluation of its part on the same inputs, and the traces go
+   through DistTrace like all others.
 """
 from __future__ import annotations
 
@@ -92,9 +103,76 @@ class _Proxy:
         return getattr(self._run, k)
 
 
+def real_code_sample(progs: list[dict], tier: str) -> list[dict]:
+    """Programs whose parts are run by generated code: the whole str-tag
+    library, every k-th of the rest, and float64 variants of some."""
+    import copy
+    lib = [p for p in progs if p["id"].startswith("lib/") and "@" not in p["id"]]
+    rest = [p for p in progs if p not in lib and nmsgs(p) >= 1]
+    k = max(1, len(rest) // (45 if tier == "quick" else 700))
+    pick = lib + rest[seed() % k::k]
+    nfl = 12 if tier == "quick" else 120
+    step = max(1, len(pick) // nfl)
+    floats = [dict(copy.deepcopy(p), id=p["id"] + "~f8", dtype="f8") for p in pick[::step]]
+    return pick + floats
+
+
+def analyse_real_code(run: Any, by_id: dict[str, dict], real: list[dict]) -> dict:
+    nparts = nruns = 0
+    for r in real:
+        p = by_id[r["id"]]
+        if r.get("crashed"):
+            run.violation(f"{r['id']}:execution_crashed",
+                          f"{r['id']}: running the generated part programs killed or hung the "
+                          f"worker process: {r['crashed']}", record={"prog": p, "real_code": True},
+                          sig=sig_of(p, "execution_crashed"))
+            continue
+        if r.get("machinery") or r.get("hang"):
+            raise MachineryError(f"{r['id']} (real-code stage): "
+                                 f"{r.get('machinery') or r.get('hang')}")
+        if not r.get("numbered"):
+            continue
+        for c in r.get("codegen", []):
+            run.violation(f"{r['id']}:real_code:codegen:{c['rank']}",
+                          f"{r['id']}: generate_code_for_partition (C target) fails on rank "
+                          f"{c['rank']}: {c['exc']}: {c['msg']}",
+                          record={"prog": p, "real_code": True}, observed=c,
+                          sig=dict(sig_of(p, "real_code:codegen"), exc=c["exc"]))
+        nparts += r.get("nparts", 0)
+        for x in r.get("runs", []):
+            nruns += 1
+            kinds = []
+            if x["bad_outputs"]:
+                kinds.append("real_code:wrong_output")
+            for ki in x["kernel_issues"]:
+                kinds.append("real_code:" + ki["what"])
+            if x["stuck"]:
+                kinds.append("real_code:deadlock")
+            for st in x["status"]:
+                if st["status"] == "raised":
+                    kinds.append("real_code:crash:" + st["exc"])
+            for lo in x.get("leftovers", []):
+                kinds.append("real_code:" + lo["what"])
+            for kd in sorted(set(kinds)):
+                run.violation(
+                    f"{r['id']}:{kd}",
+                    f"{r['id']}: parts run by generated C code, schedule {x['choices']}: {kd}; "
+                    f"{x['bad_outputs'][:1]} {x['kernel_issues'][:1]} "
+                    f"{[(s_['status'], s_['exc'], s_['msg'][:80]) for s_ in x['status'] if s_['status'] != 'ok']}",
+                    record={"prog": p, "choices": x["choices"], "grain": x["grain"],
+                            "real_code": True},
+                    observed={k_: x[k_] for k_ in ("bad_outputs", "kernel_issues", "status")},
+                    sig=sig_of(p, ":".join(kd.split(":")[:2])))
+    return {"programs": len(real), "parts_compiled_and_run": nparts, "executions": nruns,
+            "float_variants": sum(1 for r in real if r["id"].endswith("~f8")),
+            "crashed": sum(1 for r in real if r.get("crashed"))}
+
+
 def analyse(run: Run, progs: list[dict], results: list[dict], tier: str,
-            do_live: bool = True) -> dict:
+            do_live: bool = True, real: list[dict] | None = None,
+            real_progs: list[dict] | None = None) -> dict:
     by_id = {p["id"]: p for p in progs}
+    by_id.update({p["id"]: p for p in real_progs or []})
     insts = []
     flagged: set[str] = set()      # programs on which the real code already misbehaved
     _violation = run.violation
@@ -162,7 +240,8 @@ def analyse(run: Run, progs: list[dict], results: list[dict], tier: str,
                           observed={k: b.get(k) for k in ("status", "bad_outputs", "stuck",
                                                           "leftovers")},
                           sig=sig_of(p, kd))
-    recs = dc.trace_records(results)
+    real_stats = analyse_real_code(run, by_id, real or [])
+    recs = dc.trace_records(results + [r for r in (real or []) if "inst" in r])
     with ThreadPoolExecutor(max_workers=2) as ex:
         f_mc = ex.submit(dc.model_check, insts)
         f_tr = ex.submit(dc.validate_traces, recs)
@@ -210,7 +289,7 @@ def analyse(run: Run, progs: list[dict], results: list[dict], tier: str,
                       record={"prog": by_id.get(b["inst"])}, observed=b["trace"],
                       sig={"clause": "liveness"})
     return {"mc": mc, "val": val, "lv": lv, "recs": recs, "insts": insts,
-            "compared": compared, "real_states": real_states}
+            "compared": compared, "real_states": real_states, "real_code": real_stats}
 
 
 def main(tier: str, only: list[dict] | None = None) -> int:
@@ -227,9 +306,15 @@ def main(tier: str, only: list[dict] | None = None) -> int:
             "dfs_keep": 1500 if tier == "quick" else 6000}
     results = dc.process_all(progs, opts)
     t2 = time.time()
-    a = analyse(run, progs, results, tier)
+    rprogs = real_code_sample(progs, tier) if only is None else \
+        progs + [dict(p, id=p["id"] + "~f8", dtype="f8") for p in progs if "dtype" not in p]
+    real = dc.process_real_all(rprogs, {"seed": seed(), "nreal": 3 if tier == "quick" else 6})
+    t3 = time.time()
+    a = analyse(run, progs, results, tier, real=real, real_progs=rprogs)
     run.coverage["phase_wall_s"] = {"generate": round(t1 - t0, 1), "real_code": round(t2 - t1, 1),
-                                    "tlc": round(time.time() - t2, 1)}
+                                    "generated_kernels": round(t3 - t2, 1),
+                                    "tlc": round(time.time() - t3, 1)}
+    run.coverage["generated_code_stage"] = a["real_code"]
     mc, val, lv = a["mc"], a["val"], a["lv"]
     nontriv = sum(1 for p in progs if nmsgs(p) >= 1)
     nsched = sum(len(r.get("runs", [])) for r in results)
@@ -270,8 +355,10 @@ def main(tier: str, only: list[dict] | None = None) -> int:
         "semantics: non-overtaking matching per (source, tag), buffered Isend, rendezvous "
         "completion of Wait, Waitsome returning any non-empty completable subset; real MPI "
         "implementations are not exercised",
-        "part programs are a reference evaluator over the part expressions (NumPy, int64), "
-        "not generated loopy/OpenCL code; values are compared exactly",
+        "in the exhaustive-schedule stages part programs are a reference evaluator over the "
+        "part expressions (NumPy, int64, exact); the generated-code stage runs pytato's own "
+        "generate_code_for_partition output through loopy's C target and gcc (not OpenCL) on a "
+        "sample of the programs under random schedules",
         "values in the model are ids of the expected values: a part fed an unexpected value "
         "produces poison, so data flow is decided for the sampled inputs' value identities "
         "(coefficients are node specific, collisions are improbable, not impossible)",
@@ -362,5 +449,17 @@ def selftest(tier: str) -> int:
         and "deadlock" in mc["clauses"][retag["id"]] \
         and "misdelivery" in mc["clauses"][wrongval["id"]] \
         and "output_missing" in mc["clauses"][noout["id"]]
+    # generated-code stage: a kernel result changed by one / a kernel that kills its process
+    good_r = dc.process_real_all([prog], {"seed": seed(), "nreal": 2})[0]
+    off = dc.process_real_all([dict(prog, id="kernel-result-off-by-one")],
+                              {"seed": seed(), "nreal": 2, "selftest_fault": "off_by_one"})[0]
+    die = dc.process_real_all([dict(prog, id="kernel-kills-its-process")],
+                              {"seed": seed(), "nreal": 2, "selftest_fault": "die"}, timeout=60)[0]
+    clean = all(not x["bad_outputs"] and not x["kernel_issues"] for x in good_r["runs"])
+    seen = any(x["bad_outputs"] for x in off["runs"]) and \
+        any(k["what"] == "kernel_vs_reference" for x in off["runs"] for k in x["kernel_issues"])
+    print("generated-code binding: clean run", clean, "| off-by-one detected", seen,
+          "| crash isolated:", die.get("crashed"))
+    ok = ok and clean and seen and bool(die.get("crashed"))
     print("selftest", "passed" if ok else "FAILED")
     return 0 if ok else 2
